@@ -249,7 +249,22 @@ def run(ctx):
         own = query_summary(ctx, qm)["reads"] if qm is not None else []
         sets = [n for n in cfg.nodes if n.kind == "stmt" and isinstance(n.ast, ast.Assign) and any(is_self_attr(t) and t.attr in own for t in n.ast.targets)]
         ok = sets and all(guarded_by(cfg, s, lambda e: isinstance(e, ast.Call) and isinstance(e.func, ast.Attribute) and e.func.attr == pred, polarity=True) is not None for s in sets)
+        extra = []
         if ok:
+            # ... and under no further test of the element: an optional multi-valued argument sets both markers
+            for s_ in sets:
+                for e in cfg.nodes:
+                    if e.kind in ("T", "F") and isinstance(e.ast, ast.Call) and isinstance(e.ast.func, ast.Attribute) and e.ast.func.attr.startswith("is_") \
+                            and not (e.kind == "T" and e.ast.func.attr == pred) and cfg.dominates(e.id, s_.id):
+                        other = cfg.true_of(e.cond) if e.kind == "F" else cfg.false_of(e.cond)
+                        if other is not None and cfg.inevitably_raises(other.id):
+                            continue  # the other arm is a rejection: not a condition on the marker
+                        extra.append("%s%s()" % ("" if e.kind == "T" else "not ", e.ast.func.attr))
+        if ok and extra:
+            r.fail(m, sets[0].ast, "marker of %s also under %s" % (query, ", ".join(sorted(set(extra)))), "add_argument records the marker that %s() reads only when additionally %s: "
+                   "for an argument that is %s and also has the other trait the marker stays unset, so the query contradicts the listed arguments and a later ordering check cannot fire"
+                   % (query, ", ".join(sorted(set(extra))), pred[3:]))
+        elif ok:
             r.ok("add_argument: the marker behind %s() is set under %s()" % (query, pred))
         else:
             r.fail(m, m.node, "marker of " + query, "add_argument does not record the marker that %s() reads from argument.%s(): a later ordering check cannot fire" % (query, pred))
